@@ -18,9 +18,11 @@ func generateTimestampedFileName(command, extension string) string {
 
 // resolveOutputDirectory determines the output directory from configuration
 // Single responsibility: directory resolution only
+// configFile is the explicit --config path ("" when none was given): it takes
+// precedence over a configuration discovered from the target
 // Returns directory path and any error encountered during config loading
-func resolveOutputDirectory(targetPath string) (string, error) {
-	cfg, err := config.LoadConfigWithTarget("", targetPath)
+func resolveOutputDirectory(configFile, targetPath string) (string, error) {
+	cfg, err := config.LoadConfigWithTarget(configFile, targetPath)
 	if err != nil {
 		// Don't hide configuration errors - they should be visible to users
 		return "", fmt.Errorf("failed to load configuration: %w", err)
@@ -44,9 +46,9 @@ func resolveOutputDirectory(targetPath string) (string, error) {
 // generateOutputFilePath combines filename generation and directory resolution
 // Orchestrates the workflow but delegates specific concerns
 // Returns the full file path and any error encountered
-func generateOutputFilePath(command, extension, targetPath string) (string, error) {
+func generateOutputFilePath(command, extension, configFile, targetPath string) (string, error) {
 	filename := generateTimestampedFileName(command, extension)
-	outputDir, err := resolveOutputDirectory(targetPath)
+	outputDir, err := resolveOutputDirectory(configFile, targetPath)
 	if err != nil {
 		return "", err
 	}
